@@ -48,9 +48,9 @@ def inlined(prog, body, extra_opaque=(), max_callee_blocks=220):
     return inline(prog, body, max_depth=5, max_blocks=2500, only=only)
 
 
-def compute(prog, name, extra_opaque=(), effects=False, sinks=None):
+def compute(prog, name, extra_opaque=(), effects=False, sinks=None, closures=False):
     b = inlined(prog, prog.body(name), extra_opaque)
-    ex = Exits(prog, b, effects=effects, sinks=sinks).census()
+    ex = Exits(prog, b, effects=effects, sinks=sinks, closures=closures).census()
     out = []
     for e in ex:
         out.append({'cls': e['cls'], 'label': e['label'], 'trigger': e['trigger'], 'atoms': e['atoms'], 'full': e['full'], 'span': str(e['span'])})
@@ -117,7 +117,7 @@ def check(ctx, rule, name):
         raise Inconclusive('census table has no entry for %s' % name)
     ent = table[name]
     ctx.fn(ctx.prog.body(name))
-    actual, inl = compute(ctx.prog, name, tuple(ent.get('opaque', ())), bool(ent.get('effects')), ent.get('sinks'))
+    actual, inl = compute(ctx.prog, name, tuple(ent.get('opaque', ())), bool(ent.get('effects')), ent.get('sinks'), bool(ent.get('closures')))
     for g in set(inl):
         ctx.functions.add(g)
     n = 0
